@@ -150,7 +150,7 @@ func CheckC12(r *Run) int {
 	sites = rest
 	nSites, window := 70, 2
 	if !quick {
-		nSites, window = 800, 3
+		nSites, window = 300, 3
 	}
 	if nSites > len(sites) {
 		nSites = len(sites)
@@ -299,7 +299,7 @@ func CheckC12(r *Run) int {
 	wsSites := append([]site{}, sites[:nPri]...)
 	extraWS := 40
 	if !quick {
-		extraWS = 300
+		extraWS = 150
 	}
 	for i := nPri; i < len(sites) && i < nPri+extraWS; i++ {
 		wsSites = append(wsSites, sites[i])
